@@ -229,6 +229,13 @@ var cmds = []cmdSpec{
 		}
 		return a
 	}},
+	{"mixin --keep-spec-order", func(in, in2, out, format string, compact bool) []string {
+		a := []string{"mixin", "--keep-spec-order", in, in2, "--format", format, "-o", out}
+		if compact {
+			a = append(a, "--compact")
+		}
+		return a
+	}},
 }
 
 const scanPkg = `// Package scanme API.
@@ -342,13 +349,21 @@ func main() {
 				_ = os.WriteFile(inY, yb, 0o644)
 				mx := filepath.Join(dir, "mixin.json")
 				_ = os.WriteFile(mx, []byte(mixinDoc), 0o644)
+				// the mixed-in document in both renderings too: "the same input" means every input document
+				mxY := filepath.Join(dir, "mixin.yaml")
+				{
+					var mv interface{}
+					_ = json.Unmarshal([]byte(mixinDoc), &mv)
+					myb, _ := yaml.Marshal(mv)
+					_ = os.WriteFile(mxY, myb, 0o644)
+				}
 				for _, c := range cmds {
 					for _, compact := range []bool{false, true} {
 						results := map[string][]byte{} // "<input>/<format>" -> JSON value of the output
 						for _, in := range []string{"json", "yaml"} {
-							inPath := inJ
+							inPath, mx := inJ, mx
 							if in == "yaml" {
-								inPath = inY
+								inPath, mx = inY, mxY
 							}
 							for _, format := range []string{"json", "yaml"} {
 								outPath := filepath.Join(dir, "out."+format)
